@@ -8,10 +8,13 @@ import (
 	"errors"
 	"fmt"
 	"math/big"
+	"strings"
 	"testing"
+	"time"
 
 	"github.com/libsv/go-bt/v2"
 	"github.com/libsv/go-bt/v2/bscript"
+	"github.com/libsv/go-bt/v2/unlocker"
 	"pgregory.net/rapid"
 
 	"verif/harness/gen"
@@ -29,6 +32,11 @@ type U struct {
 	Script    pbt.Hex `json:"script"`
 	ScriptNil bool    `json:"script_nil,omitempty"`
 	Seq       uint32  `json:"seq"` // UTXO.SequenceNumber as supplied (documented to be ignored: inputs are final)
+	// Same (ninth round): the supplier hands out the very *bt.UTXO object it handed out just before
+	// (the previous UTXO of its history) once more; the other fields then repeat that UTXO's
+	Same bool `json:"same,omitempty"`
+	// Unlocker: the UTXO carries a (never used) Unlocker
+	Unlocker bool `json:"unlocker,omitempty"`
 }
 
 // Case is a whole supplier history: the starting transaction, the quote, the
@@ -53,12 +61,148 @@ type Case struct {
 	// supplier calls is stored as a number
 	RepBatch int `json:"rep_batch,omitempty"`
 	RepAt    int `json:"rep_at,omitempty"`
+	// ninth round: arguments and callback results the earlier rounds held constant
+	Ctx      CtxSpec `json:"ctx,omitempty"`       // the context Fund is given
+	EndBatch []U     `json:"end_batch,omitempty"` // UTXOs the supplier returns TOGETHER WITH its terminator (an error)
+	NilEmpty bool    `json:"nil_empty,omitempty"` // an empty batch is returned as a nil slice (else as an empty non-nil one)
+}
+
+// CtxSpec describes the context argument of Fund.
+type CtxSpec struct {
+	// Kind: "" (context.Background) | "todo" | "cancelled" (before Fund is called) | "deadline-past" |
+	// "deadline-future" | "cancel-during" (the supplier callback cancels it during supplier call At)
+	Kind   string `json:"kind,omitempty"`
+	At     int    `json:"at,omitempty"`
+	Values bool   `json:"values,omitempty"` // the context carries a value of the caller
+}
+
+type ctxKey struct{}
+
+const ctxValue = "the caller's value"
+
+func ctxOK(s CtxSpec) bool {
+	switch s.Kind {
+	case "", "todo", "cancelled", "deadline-past", "deadline-future", "cancel-during":
+		return s.At >= 0
+	}
+	return false
+}
+
+// makeCtx builds the context. Deadlines are constants (no clock decides anything: a deadline in
+// 1970 has passed, one in 2999 has not).
+func makeCtx(s CtxSpec) (context.Context, context.CancelFunc) {
+	var base context.Context = context.Background()
+	if s.Kind == "todo" {
+		base = context.TODO()
+	}
+	if s.Values {
+		base = context.WithValue(base, ctxKey{}, ctxValue)
+	}
+	switch s.Kind {
+	case "cancelled":
+		c, cancel := context.WithCancel(base)
+		cancel()
+		return c, cancel
+	case "cancel-during":
+		return context.WithCancel(base)
+	case "deadline-past":
+		return context.WithDeadline(base, time.Unix(1, 0))
+	case "deadline-future":
+		return context.WithDeadline(base, time.Date(2999, 1, 1, 0, 0, 0, 0, time.UTC))
+	}
+	return base, func() {}
+}
+
+// terminators: how the supplier says that it has nothing (more), or that it failed
+var endKinds = []string{"exhausted", "exhausted-wrapped", "error", "exhausted-wrapped-twice", "exhausted-joined", "exhausted-is-method", "exhausted-unwrap-type", "error-same-text"}
+
+func endOK(kind string) bool {
+	for _, k := range endKinds {
+		if k == kind {
+			return true
+		}
+	}
+	return false
+}
+
+// endExhausted: errors.Is(endError(kind), bt.ErrNoUTXO) - "the supplier reports exhaustion".
+func endExhausted(kind string) bool { return strings.HasPrefix(kind, "exhausted") }
+
+type walletEmpty struct{}
+
+func (walletEmpty) Error() string        { return "wallet: nothing left to spend" }
+func (walletEmpty) Is(target error) bool { return target == bt.ErrNoUTXO }
+
+type walletErr struct {
+	op  string
+	err error
+}
+
+func (e *walletErr) Error() string { return "wallet: " + e.op + ": " + e.err.Error() }
+func (e *walletErr) Unwrap() error { return e.err }
+
+// sameText reads exactly like bt.ErrNoUTXO and is not it: a failure of the supplier.
+type sameText struct{}
+
+func (sameText) Error() string { return bt.ErrNoUTXO.Error() }
+func (sameText) Unwrap() error { return errSupplier }
+
+func endError(kind string) error {
+	switch kind {
+	case "exhausted":
+		return bt.ErrNoUTXO
+	case "exhausted-wrapped":
+		return fmt.Errorf("wallet empty: %w", bt.ErrNoUTXO)
+	case "exhausted-wrapped-twice":
+		return fmt.Errorf("funding: %w", fmt.Errorf("wallet empty: %w", bt.ErrNoUTXO))
+	case "exhausted-joined":
+		return errors.Join(errors.New("closing the cursor: connection reset"), bt.ErrNoUTXO)
+	case "exhausted-is-method":
+		return walletEmpty{}
+	case "exhausted-unwrap-type":
+		return &walletErr{"next page", bt.ErrNoUTXO}
+	case "error-same-text":
+		return sameText{}
+	}
+	return fmt.Errorf("wallet backend: %w", errSupplier)
+}
+
+// resolveSame gives every UTXO marked Same the fields of the UTXO handed out just before it
+// (it IS that object); a Same with nothing before it is an ordinary UTXO.
+func resolveSame(batches [][]U) [][]U {
+	any := false
+	for _, b := range batches {
+		for _, u := range b {
+			any = any || u.Same
+		}
+	}
+	if !any {
+		return batches
+	}
+	out := make([][]U, len(batches))
+	var prev *U
+	for i, b := range batches {
+		out[i] = append([]U{}, b...)
+		for k := range out[i] {
+			u := &out[i][k]
+			if u.Same {
+				if prev == nil {
+					u.Same = false
+				} else {
+					*u = *prev
+					u.Same = true
+				}
+			}
+			prev = u
+		}
+	}
+	return out
 }
 
 // expandBatches materialises RepBatch.
 func expandBatches(batches [][]U, at, n int) [][]U {
 	if n <= 0 || n > 5000 || at < 0 || at >= len(batches) {
-		return batches
+		return resolveSame(batches)
 	}
 	out := make([][]U, 0, len(batches)+n)
 	out = append(out, batches[:at+1]...)
@@ -73,12 +217,13 @@ func expandBatches(batches [][]U, at, n int) [][]U {
 		}
 		out = append(out, b)
 	}
-	return append(out, batches[at+1:]...)
+	return resolveSame(append(out, batches[at+1:]...))
 }
 
 // Act is one callback action.
 type Act struct {
-	Kind string      `json:"kind,omitempty"` // "" | "query" | "quote"
+	Kind string      `json:"kind,omitempty"` // "" | "query" | "quote" | "refused"
+	R    *ref.C11Refused `json:"r,omitempty"` // refused: a call on the quote object that the library refuses (the rates stay what they are)
 	Data bool        `json:"data,omitempty"` // quote: the data fee is replaced (else the standard fee)
 	Unit ref.FeeUnit `json:"unit,omitempty"`
 	Tag  int         `json:"tag,omitempty"` // quote: FeeType field of the registered fee object
@@ -96,9 +241,17 @@ func actOK(a Act) bool {
 		return true
 	case "quote":
 		return ref.FeeQuoteEditWideOK(a.edit())
+	case "refused":
+		return a.R != nil && ref.C11RefusedOK(*a.R)
 	}
 	return false
 }
+
+// errStopJudging ends a case (a history) without a verdict on what follows: the library accepted
+// a call that is expected to be refused (what the quote holds from then on is not defined by "a
+// refused update is not an update"), or Fund returned the error of its done context (accepted,
+// see judgeFund; which supplier calls and callback actions took place is then its choice).
+var errStopJudging = errors.New("harness: no verdict on the rest of the case")
 
 // actModel applies action i of the case to the model of the quote.
 func actModel(c Case, i int, q *ref.FeeQuote) {
@@ -124,6 +277,8 @@ func actLib(c Case, i int, q *ref.FeeQuote, tx *bt.Tx, lq *ref.FeeQuoteLib) erro
 		_ = tx.TotalInputSatoshis()
 	case "quote":
 		return lq.Apply(q, a.edit())
+	case "refused": // a refused update is not an update: the model is not touched
+		return ref.C11RefusedApply(lq, *a.R)
 	}
 	return nil
 }
@@ -160,7 +315,7 @@ var errSupplier = errors.New("harness: supplier failure")
 func amountsOutside(c Case) string {
 	in := ref.FeeSumIn(c.Tx)
 	n := 0
-	for _, b := range c.Batches {
+	for _, b := range append(append([][]U{}, c.Batches...), c.EndBatch) {
 		for _, u := range b {
 			in.Add(in, new(big.Int).SetUint64(u.Sats))
 			n++
@@ -287,10 +442,11 @@ func runModel(c Case) (modelResult, error) {
 		// the callback runs: whatever it does to the caller's quote counts from here on
 		actModel(c, len(r.deficits)-1, &r.quote)
 		if r.handed == len(c.Batches) {
-			if c.End == "error" {
-				r.class = resSupplierErr
-			} else {
+			// whatever accompanies the terminator is not "a UTXO the supplier returned": the call failed
+			if endExhausted(c.End) {
 				r.class = resExhausted
+			} else {
+				r.class = resSupplierErr
 			}
 			r.final = cur
 			return r, nil
@@ -351,6 +507,15 @@ func abbrev[T any](l []T) string {
 	return fmt.Sprintf("[%v %v %v %v ... (%d in all) ... %v %v %v]", l[0], l[1], l[2], l[3], len(l), l[len(l)-3], l[len(l)-2], l[len(l)-1])
 }
 
+func emptyBatchHanded(c Case, handed int) bool {
+	for i := 0; i < handed && i < len(c.Batches); i++ {
+		if len(c.Batches[i]) == 0 {
+			return true
+		}
+	}
+	return false
+}
+
 func classOf(err error) string {
 	switch {
 	case err == nil:
@@ -398,10 +563,12 @@ func check(ctx *pbt.Ctx, c Case) error {
 		ctx.Discard(why)
 		return nil
 	}
-	switch c.End {
-	case "exhausted", "exhausted-wrapped", "error":
-	default:
+	if !endOK(c.End) {
 		ctx.Discard("unknown terminator")
+		return nil
+	}
+	if !ctxOK(c.Ctx) || len(c.EndBatch) > 8 {
+		ctx.Discard("malformed context / terminator batch")
 		return nil
 	}
 	want, err := runModel(c)
@@ -415,7 +582,10 @@ func check(ctx *pbt.Ctx, c Case) error {
 	}
 	ctx.After(lq.Unmodified)
 	ctx.Labelf("quote-build=%d", c.Quote.Build)
-	return judgeFund(ctx, c, want, ref.ToLib(c.Tx), lq)
+	if err := judgeFund(ctx, c, want, ref.ToLib(c.Tx), lq); err != errStopJudging {
+		return err
+	}
+	return nil
 }
 
 // judgeFund runs one Fund call on the library object tx with the quote object fq and the
@@ -432,7 +602,40 @@ func judgeFund(ctx *pbt.Ctx, c Case, want modelResult, tx *bt.Tx, lq *ref.FeeQuo
 	var handedOut []U
 	afterEnd := 0
 	libQ := c.Quote // the callback's own view of the quote it updates
-	next := func(_ context.Context, deficit uint64) ([]*bt.UTXO, error) {
+	fctx, cancel := makeCtx(c.Ctx)
+	defer cancel()
+	var ctxErr error
+	var lastObj *bt.UTXO
+	var simpleUnlocker bt.Unlocker = &unlocker.Simple{}
+	mkUTXO := func(u U) *bt.UTXO {
+		if u.Same && lastObj != nil {
+			return lastObj // the same object once more
+		}
+		x := &bt.UTXO{TxID: append([]byte{}, u.TxID...), Vout: u.Vout, Satoshis: u.Sats, SequenceNumber: u.Seq}
+		if !u.ScriptNil {
+			x.LockingScript = bscript.NewFromBytes(append([]byte{}, u.Script...))
+		}
+		if u.Unlocker {
+			x.Unlocker = &simpleUnlocker
+		}
+		lastObj = x
+		return x
+	}
+	next := func(sctx context.Context, deficit uint64) ([]*bt.UTXO, error) {
+		// the context is the caller's: the supplier sees the caller's values and the caller's cancellation
+		if ctxErr == nil {
+			switch {
+			case sctx == nil:
+				ctxErr = fmt.Errorf("supplier call %d was handed a nil context", len(got))
+			case c.Ctx.Values && sctx.Value(ctxKey{}) != ctxValue:
+				ctxErr = fmt.Errorf("supplier call %d was handed a context that does not carry the value the caller put into the context given to Fund", len(got))
+			case fctx.Err() != nil && sctx.Err() == nil:
+				ctxErr = fmt.Errorf("supplier call %d was handed a live context although the context given to Fund is done (%v)", len(got), fctx.Err())
+			}
+		}
+		if c.Ctx.Kind == "cancel-during" && len(got) == c.Ctx.At {
+			cancel() // the caller gives up while the supplier is at work; the supplier still delivers
+		}
 		got = append(got, deficit)
 		if handed >= len(c.Batches) {
 			if handed > len(c.Batches) {
@@ -444,13 +647,11 @@ func judgeFund(ctx *pbt.Ctx, c Case, want modelResult, tx *bt.Tx, lq *ref.FeeQuo
 				actErr = err
 			}
 			handed++
-			switch c.End {
-			case "exhausted":
-				return nil, bt.ErrNoUTXO
-			case "exhausted-wrapped":
-				return nil, fmt.Errorf("wallet empty: %w", bt.ErrNoUTXO)
+			var with []*bt.UTXO // io.Reader style: the last (partial) page comes together with the terminator
+			for _, u := range c.EndBatch {
+				with = append(with, mkUTXO(u))
 			}
-			return nil, fmt.Errorf("wallet backend: %w", errSupplier)
+			return with, endError(c.End)
 		}
 		if err := actLib(c, len(got)-1, &libQ, tx, lq); err != nil && actErr == nil {
 			actErr = err
@@ -458,20 +659,30 @@ func judgeFund(ctx *pbt.Ctx, c Case, want modelResult, tx *bt.Tx, lq *ref.FeeQuo
 		b := c.Batches[handed]
 		handed++
 		out := make([]*bt.UTXO, 0, len(b))
+		if len(b) == 0 && c.NilEmpty {
+			out = nil
+		}
 		for _, u := range b {
-			x := &bt.UTXO{TxID: append([]byte{}, u.TxID...), Vout: u.Vout, Satoshis: u.Sats, SequenceNumber: u.Seq}
-			if !u.ScriptNil {
-				x.LockingScript = bscript.NewFromBytes(append([]byte{}, u.Script...))
-			}
-			out = append(out, x)
+			out = append(out, mkUTXO(u))
 			handedOut = append(handedOut, u)
 		}
 		return out, nil
 	}
-	ferr := tx.Fund(context.Background(), fq, next)
+	ferr := tx.Fund(fctx, fq, next)
+	if errors.Is(actErr, ref.C11ErrAccepted) {
+		ctx.Label("refused-call-was-accepted")
+		return errStopJudging
+	}
 	if actErr != nil {
 		return fmt.Errorf("the supplier callback could not update the caller's quote object: %v", actErr)
 	}
+	// A done context is no exhaustion. What the statement fixes: the supplier is asked while a
+	// deficit remains, and insufficient funds is reported only after the supplier reported
+	// exhaustion. An implementation that stops asking once the context it was given is done and
+	// returns THAT context's error has not claimed either; it is accepted (ctxAlt) as long as the
+	// calls it did make are the model's first calls. (The library as it stands only hands the
+	// context through.)
+	ctxAlt := ferr != nil && fctx.Err() != nil && errors.Is(ferr, fctx.Err()) && !errors.Is(ferr, bt.ErrInsufficientFunds)
 	after := ref.FromLib(tx)
 	gotClass := classOf(ferr)
 
@@ -497,6 +708,41 @@ func judgeFund(ctx *pbt.Ctx, c Case, want modelResult, tx *bt.Tx, lq *ref.FeeQuo
 		ctx.Label("supplier-calls=250..999")
 	}
 	ctx.Labelf("prior-inputs=%d", min(len(c.Tx.In), 5))
+	if c.Ctx.Kind != "" || c.Ctx.Values {
+		k := c.Ctx.Kind
+		if k == "" {
+			k = "background"
+		}
+		if c.Ctx.Values {
+			k += "+values"
+		}
+		ctx.Label("ctx=" + k)
+		switch {
+		case (c.Ctx.Kind == "cancelled" || c.Ctx.Kind == "deadline-past") && len(want.deficits) > 0:
+			ctx.Label("ctx:supplier-needed-under-a-done-context")
+		case c.Ctx.Kind == "cancel-during" && len(want.deficits) > c.Ctx.At+1:
+			ctx.Label("ctx:supplier-needed-again-after-the-context-was-cancelled-during-a-call")
+		}
+	}
+	if want.class == resExhausted || want.class == resSupplierErr { // the terminator was reached
+		ctx.Label("end=" + c.End)
+		if len(c.EndBatch) > 0 {
+			ctx.Label("terminator-carries-utxos")
+		}
+	}
+	if c.NilEmpty && emptyBatchHanded(c, want.handed) {
+		ctx.Label("empty-batch-as-nil-slice")
+	}
+	for i := 0; i < want.handed; i++ {
+		for _, u := range c.Batches[i] {
+			if u.Same {
+				ctx.Label("same-utxo-object-handed-out-twice")
+			}
+			if u.Unlocker {
+				ctx.Label("utxo-carries-unlocker")
+			}
+		}
+	}
 	if len(c.Tx.In) < 253 && want.class == resOK && len(want.final.In) >= 253 {
 		ctx.Label("input-count-crosses-253-while-funding")
 	}
@@ -531,6 +777,11 @@ func judgeFund(ctx *pbt.Ctx, c Case, want modelResult, tx *bt.Tx, lq *ref.FeeQuo
 			}
 		case "query":
 			ctx.Label("callback-queries-transaction")
+		case "refused":
+			ctx.Label("callback-makes-a-refused-call-on-the-quote")
+			if i < want.handed {
+				ctx.Label("callback-makes-a-refused-call-before-a-later-estimate")
+			}
 		}
 	}
 	two63 := new(big.Int).Lsh(big.NewInt(1), 63)
@@ -563,6 +814,10 @@ func judgeFund(ctx *pbt.Ctx, c Case, want modelResult, tx *bt.Tx, lq *ref.FeeQuo
 		}
 	}
 
+	if ctxErr != nil {
+		return fmt.Errorf("%v %s", ctxErr, desc())
+	}
+
 	// ---- the supplier is called only while a deficit remains, with the current deficit --
 	if afterEnd > 0 {
 		return fmt.Errorf("supplier called %d more time(s) after it had reported %q %s", afterEnd, c.End, desc())
@@ -572,6 +827,13 @@ func judgeFund(ctx *pbt.Ctx, c Case, want modelResult, tx *bt.Tx, lq *ref.FeeQuo
 		case i >= len(want.deficits):
 			return fmt.Errorf("supplier call %d (deficit %d) made although the model makes only %d call(s) %s", i, got[i], len(want.deficits), desc())
 		case i >= len(got):
+			if ctxAlt {
+				ctx.Label("fund-returned-the-error-of-its-done-context")
+				return errStopJudging // which callback actions ran is the library's choice from here on
+			}
+			if fctx.Err() != nil {
+				return fmt.Errorf("supplier call %d (deficit %s) never made, and Fund returned %q although the supplier had not reported exhaustion: a done context (%v) is not an exhausted supplier %s", i, want.deficits[i], fmt.Sprint(ferr), fctx.Err(), desc())
+			}
 			return fmt.Errorf("supplier call %d (deficit %s) never made %s", i, want.deficits[i], desc())
 		case new(big.Int).SetUint64(got[i]).Cmp(want.deficits[i]) != 0:
 			return fmt.Errorf("supplier call %d was given deficit %d, current deficit is %s %s", i, got[i], want.deficits[i], desc())
@@ -586,6 +848,10 @@ func judgeFund(ctx *pbt.Ctx, c Case, want modelResult, tx *bt.Tx, lq *ref.FeeQuo
 		if gotClass == a {
 			okClass = true
 		}
+	}
+	if !okClass && ctxAlt {
+		ctx.Label("fund-returned-the-error-of-its-done-context")
+		return errStopJudging
 	}
 	if !okClass {
 		return fmt.Errorf("Fund returned %q (class %s), model says %s %s", fmt.Sprint(ferr), gotClass, want.class, desc())
@@ -837,8 +1103,9 @@ func genCase(t *rapid.T) Case {
 		}
 	}
 
-	c.Batches, c.Acts = genBatches(t, c.Tx, c.Quote)
-	c.End = rapid.SampledFrom([]string{"exhausted", "error", "exhausted-wrapped"}).Draw(t, "end")
+	var room uint64
+	c.Batches, c.Acts, room = genBatches(t, c.Tx, c.Quote)
+	c.End, c.EndBatch, c.Ctx, c.NilEmpty = genFundArgs(t, c.Tx, len(c.Batches), room)
 	for i := range stored { // keep the short form; values were assigned on the expanded copy
 		stored[i].PrevSats = c.Tx.In[i].PrevSats
 	}
@@ -914,12 +1181,15 @@ func enumLongRuns(yield func(Case)) {
 
 // genBatches draws a supplier history for a transaction that stands as start: values are
 // aimed at the model's running deficit.
-func genBatches(t *rapid.T, start ref.Tx, q ref.FeeQuote) (batches [][]U, acts []Act) {
+func genBatches(t *rapid.T, start ref.Tx, q ref.FeeQuote) (batches [][]U, acts []Act, room uint64) {
 	// what the callback does during a supplier call, as the caller's own code: mostly nothing;
 	// the running quote q follows, so that later values are aimed at the rates then in force
 	genAct := func() {
 		var a Act
-		switch rapid.IntRange(0, 9).Draw(t, "act") {
+		switch rapid.IntRange(0, 10).Draw(t, "act") {
+		case 10:
+			r := gen.C11Refused(t, "act_refused")
+			a = Act{Kind: "refused", R: &r}
 		case 8:
 			a.Kind = "query"
 		case 9:
@@ -933,17 +1203,27 @@ func genBatches(t *rapid.T, start ref.Tx, q ref.FeeQuote) (batches [][]U, acts [
 	cur := start
 	cur.In = append([]ref.In{}, start.In...)
 	// what the supplier may still hand out before the input total would overflow uint64
-	room := uint64(0)
+	room = 0
 	if s := ref.FeeSumIn(start); s.IsUint64() {
 		room = maxU64 - s.Uint64()
 	}
 	nb := rapid.IntRange(0, 6).Draw(t, "nbatches")
+	var prevU *U
 	for b := 0; b < nb; b++ {
 		genAct()
 		n := []int{1, 2, 0, 3, 4}[rapid.IntRange(0, 4).Draw(t, "batchlen")]
 		batch := []U{}
 		for i := 0; i < n; i++ {
+			if prevU != nil && len(prevU.TxID) == 32 && prevU.Sats <= room && rapid.IntRange(0, 29).Draw(t, "usame") == 17 {
+				u := *prevU // the object handed out just before, once more
+				u.Same = true
+				room -= u.Sats
+				batch = append(batch, u)
+				cur.In = append(cur.In, inputOf(u))
+				continue
+			}
 			u := U{TxID: gen.Bytes(t, 32, "utxid"), Vout: gen.U32(t, "uvout"), Script: ref.FeeP2PKH(gen.Bytes(t, 20, "upkh")), Seq: 0xffffffff}
+			u.Unlocker = rapid.IntRange(0, 9).Draw(t, "uunlocker") == 3
 			if rapid.Bool().Draw(t, "useq") {
 				u.Seq = gen.U32(t, "useqv")
 			}
@@ -989,6 +1269,8 @@ func genBatches(t *rapid.T, start ref.Tx, q ref.FeeQuote) (batches [][]U, acts [
 				u.Vout = rapid.SampledFrom([]uint32{0xffffffff, 0, 1}).Draw(t, "null_vout")
 			}
 			batch = append(batch, u)
+			pu := u
+			prevU = &pu
 			if len(u.TxID) == 32 {
 				cur.In = append(cur.In, inputOf(u))
 			}
@@ -999,7 +1281,52 @@ func genBatches(t *rapid.T, start ref.Tx, q ref.FeeQuote) (batches [][]U, acts [
 	for len(acts) > 0 && acts[len(acts)-1].Kind == "" {
 		acts = acts[:len(acts)-1]
 	}
-	return batches, acts
+	return batches, acts, room
+}
+
+// genFundArgs draws what the earlier rounds held constant: the form of the terminator, UTXOs
+// that come together with it, the context, the form of an empty batch.
+func genFundArgs(t *rapid.T, start ref.Tx, ncalls int, room uint64) (end string, endBatch []U, cs CtxSpec, nilEmpty bool) {
+	end = rapid.SampledFrom(append([]string{"exhausted", "exhausted", "error", "error", "exhausted-wrapped"}, endKinds...)).Draw(t, "end")
+	if rapid.IntRange(0, 4).Draw(t, "end_batch") == 2 {
+		for i, n := 0, rapid.IntRange(1, 2).Draw(t, "end_batch_n"); i < n; i++ {
+			u := U{TxID: gen.Bytes(t, 32, "etxid"), Vout: gen.U32(t, "evout"), Script: ref.FeeP2PKH(gen.Bytes(t, 20, "epkh")), Seq: 0xffffffff}
+			switch rapid.IntRange(0, 3).Draw(t, "eval") {
+			case 0:
+				u.Sats = rapid.Uint64Range(0, 1000).Draw(t, "esmall")
+			default: // would cover whatever is missing
+				out := ref.FeeSumOut(start)
+				v := uint64(1 << 40)
+				if out.IsUint64() {
+					v = satAdd(out.Uint64(), 1<<40)
+				}
+				u.Sats = v
+			}
+			u.Sats = min(u.Sats, room)
+			room -= u.Sats
+			endBatch = append(endBatch, u)
+		}
+	}
+	switch rapid.IntRange(0, 11).Draw(t, "ctx") {
+	case 0, 1:
+		cs.Kind = "cancelled"
+	case 2:
+		cs.Kind = "deadline-past"
+	case 3, 4:
+		cs.Kind = "cancel-during"
+		cs.At = rapid.IntRange(0, max(ncalls, 1)).Draw(t, "ctx_at")
+	case 5:
+		cs.Kind = "todo"
+	case 6:
+		cs.Kind = "deadline-future"
+	case 7:
+		cs.Values = true
+	}
+	if cs.Kind != "" && cs.Kind != "todo" {
+		cs.Values = rapid.Bool().Draw(t, "ctx_values")
+	}
+	nilEmpty = rapid.Bool().Draw(t, "nil_empty")
+	return
 }
 
 func TestFund(t *testing.T) {
